@@ -88,8 +88,9 @@ def is_flat_letters(spec):
     return all(x[0] == "text" and all(ch.isalpha() or ch == " " for ch in x[1]) for x in spec[3])
 
 
-def find_token(lines, tok):
-    """positions (line, col) where tok stands as a whole token"""
+def find_token(lines, tok, tight=False):
+    """positions (line, col) where tok stands as a whole token (tight: the key pattern does not end in a blank, the item's
+    text follows its label directly)"""
     out = []
     for li, l in enumerate(lines):
         start = 0
@@ -99,7 +100,7 @@ def find_token(lines, tok):
                 break
             before = l[j - 1] if j > 0 else " "
             after = l[j + len(tok)] if j + len(tok) < len(l) else " "
-            if not before.isdigit() and after == " ":
+            if not before.isdigit() and (after == " " or tight):
                 out.append((li, j))
             start = j + 1
     return out
@@ -137,7 +138,7 @@ def direct_eval(spec, w, res):
     pos = []
     for i in range(n):
         tok = label(pat, i).strip()
-        p = find_token(lines, tok)
+        p = find_token(lines, tok, tight=not label(pat, i).endswith(" "))
         if len(p) != 1:
             if len(p) == 0 and any(x[1].strip() == "" for x in items):
                 return ("empty-item-row", "label %r of item %d is not shown: an item that renders to no line lost its row "
